@@ -93,7 +93,7 @@ def run(ctx):
         mem = r.random() < 0.5
         ext = "gtf" if fmt == "gtf" else "gff3"
         path = dbside.write_lines(os.path.join(ctx.scratch, "c01." + ext), ["##gff-version 3"] + lines)
-        dbfn = ":memory:" if mem else os.path.join(ctx.scratch, "c01.db")
+        dbfn = ":memory:" if mem else os.path.join(ctx.scratch, "c01_%d.db" % fi)
         cfg = dbside.Cfg(strategy="create_unique", keep_order=True, disG=True, disT=True)
         db, rep = dbside.py_create(path, cfg, dbfn=dbfn, checklines=cl)
         res.evaluations += 1
